@@ -1,6 +1,7 @@
 import Aiorpcx.C10.Queue
 import Aiorpcx.C10.Completed
 import Aiorpcx.C10.Stop
+import Aiorpcx.C10.Sem
 import Aiorpcx.C09.Props
 /-!
 # C10 — join follows its wait policy and reports the first finisher
@@ -404,6 +405,52 @@ theorem join_in_loop_full_fails : ¬ join_in_loop_full := by
     { phase := .fin, snapshot := some [0], exc := false, blocked := false, hasPermit := false,
       abandoned := false } (by decide) (by decide) rfl (by decide) (by decide)
   rcases this with h | h <;> cases h
+
+/-! ## Semaphore accounting in all histories -/
+
+theorem sinv_reachable (p : Policy) (as : List Action) : SInv (runAll (init p) as).1 :=
+  sinv_runAll _ as (good_init p) (sinv_init p)
+
+/-- **`sem_invariant`** (every history, any number of competing `next_done()` callers): permits
+banked in the group's semaphore + the permit held by the joiner = length of the done queue. -/
+theorem sem_invariant (p : Policy) (as : List Action) :
+    (runAll (init p) as).1.sem + hpNat (runAll (init p) as).1 =
+      (runAll (init p) as).1.doneq.length :=
+  (sinv_reachable p as).sem
+
+/-- hence a joiner that holds a permit always finds a task to pop: the join loop never takes
+the "`next_done()` returned None after acquiring" exit -/
+theorem permit_finds_task (p : Policy) (as : List Action) (j : Joiner)
+    (hj : (runAll (init p) as).1.joiner = some j) (hp : j.hasPermit = true) :
+    (runAll (init p) as).1.doneq ≠ [] := by
+  have h := sem_invariant p as
+  simp only [hpNat, hj, hp, ↓reduceIte] at h
+  intro he
+  rw [he] at h
+  simp at h
+
+/-- **`next_done()` answers None only when no task remains** (every history): the observation
+`nextDone k none` is made only by the caller's own action, on a group with nothing queued and
+nothing pending - never by a caller that had to acquire the semaphore, whether at once or after
+waiting.  (With the queue discipline this is "no member is omitted".) -/
+theorem next_done_none_only_when_nothing_left (p : Policy) (as : List Action) (a : Action) (k : Nat)
+    (hm : Obs.nextDone k none ∈ (react (runAll (init p) as).1 a).2) :
+    (∃ perm, a = .nextDone k perm) ∧ (runAll (init p) as).1.doneq = [] ∧
+      (runAll (init p) as).1.pending = [] := by
+  have hg := good_reachable p as
+  have hs := sinv_reachable p as
+  generalize (runAll (init p) as).1 = g at *
+  rw [react_snd, List.mem_append] at hm
+  rcases hm with hm | hm
+  · exact nn_apply g a hs k hm
+  · exact absurd hm (nn_runJoiner a.perm _ _ (good_apply g a hg).fixed (sinv_apply g a hs) k)
+
+/-- non-vacuity: two consumers; the first takes the only member, the second - nothing queued,
+nothing pending - is told None; sem = 0 = |doneq| -/
+example :
+    let r := runAll (init .all) [.spawn 0 false [], .finish 0 .val [], .nextDone 0 [], .nextDone 1 []]
+    r.2 = [[], [], [Obs.nextDone 0 (some 0)], [Obs.nextDone 1 none]] ∧ r.1.sem = 0 ∧
+      r.1.doneq = [] := by decide
 
 /-! ## Facts tie: the decision table of the `join()` loop and of `next_done()`, probed on the
 real class on every run (`tools/facts/c09.py`: real tasks on a real loop, public API only) -/
